@@ -7,6 +7,7 @@ CONSTANTS
   MaxTests = 3
   MaxTags = 4
   MaxTime = 4
+  MaxRuns = 1
 CONSTRAINT ExportC
 INVARIANT WireWellFormed
 INVARIANT RoundTrip
